@@ -70,6 +70,11 @@ Next == /\ l <= Len(Rec)
                                   \A k \in 1..Len(e.lookups[j].missed_ids_listed) : e.lookups[j].missed_ids_listed[k][2] >= 2
                f == IF e.e = "slowjoin"
                     THEN (IF e.joined /\ e.bootstrapped THEN {} ELSE {"C13_SlowLinkJoins"}) \cup (IF e.panicked THEN {"C13_NoPanic"} ELSE {})
+                    ELSE IF e.e = "askjoin"
+                    \* a caller that keeps asking bootstrapped() - while the first lookup runs, while the node's address is being
+                    \* confirmed, after it has taken its new id - gets an answer every time, and the answer is true
+                    THEN (IF e.returned = e.calls /\ e.true = e.calls /\ e.table > 0 THEN {} ELSE {"C13_Bootstrapped"})
+                         \cup (IF e.panicked THEN {"C13_NoPanic"} ELSE {})
                     ELSE Check(e) IN
            IF f # {} THEN PrintT(<<"VIOL", ToJson([line |-> l, b |-> e.b, failed |-> f, spec |-> e.spec, only_shadowed |-> onlyShadowed])>>) ELSE TRUE
         /\ l' = l + 1
